@@ -440,6 +440,7 @@ CAP_ARGS = {
     'Transport': ['min_cap', 'max_cap'],
     'ExtendedTransport': ['min_cap', 'max_cap', 'min_take', 'max_take'],
     'Storage': ['size', 'cap_in', 'cap_out', 'start_level', 'end_level', 'inflow'],
+    'Plant': ['min_cap', 'max_cap', 'ramp', 'last_dispatch', 'consumption_if_on', 'start_fuel'],
 }
 
 
@@ -622,11 +623,14 @@ def oracle_scaled(case, seed=0, grid_pts=4):
             x2 = np.insert(r2.x, off + nblk - 1, s)
             if base['type'] == 'OrderBook':
                 # the rescaled order book executes a share z of capa*k, the scaled one x = k*z of capa
-                if k <= 0:
+                # (only orders with a mapping row are dispatch variables; the others keep their box [0,1])
+                if k <= 0 or bop is None:
                     continue
+                idx = off + np.array(sorted(set(int(i) for i in bop.mapping.index)), dtype=int)
                 x1 = x1.copy()
-                x1[off:off + nblk - 1] = x1[off:off + nblk - 1] / k
-                x2[off:off + nblk - 1] = x2[off:off + nblk - 1] * k
+                if len(idx):
+                    x1[idx] = x1[idx] / k
+                    x2[idx] = x2[idx] * k
             w, what = pf.feasibility_violation(op2, x1)
             if w > 1e-5:
                 viol.append(_violation('scaled_fixed', 'scale %s: dispatch of the scaled solution violates %s of the rescaled base portfolio by %.3g' % (s, what, w),
